@@ -22,6 +22,13 @@ import Momo.Extracted
   block is written by somebody else the model lets an adversary choose the new content of `next`).
   Ghost state: `L` (published chain, head first), `W` (chain taken by the owner and not yet walked),
   `log` (history of life-cycle events, newest first).
+  The pool is a parameter: which free block `Allocate` answers (`alloc r`), when it takes fresh memory from the
+  memory manager (`grow r`), what it writes into a block it gets back (`g` of `walk` / `remove`).
+  `accesses` lists the non-atomic accesses to block memory that belong to the hand-off protocol; the owner's other
+  accesses to rows of the table (row numbers, index lookups) are accesses of thread 0 to blocks of `table`, which
+  thread 0 holds (`Holds`), and are ordered with everything else by program order of thread 0.
+  Not modelled: a `Row` object outliving its table (a precondition of the library), exceptions inside `CreateRaw`
+  (the block goes straight back to the pool, DataTable.h:1006-1009: owner-only, no list involved).
   Core Lean only (no Mathlib): this file is linked into the driver.
 -/
 namespace Momo.Rows
